@@ -144,10 +144,11 @@ def _drive(coro, child, loop):
     raise AssertionError('run_command did not finish')
 
 
-@obligation(params=dict(o1=Text(2), o2=Text(2), o3=Text(2), c1=Int(0, 4), c2=Int(0, 4), c3=Int(0, 4), shape=Int(0, 2)),
+@obligation(params=dict(o1=Text(1), o2=Text(1), o3=Text(1), c1=Int(0, 3), c2=Int(0, 3), c3=Int(0, 3), shape=Int(0, 2)),
             tags={2: 'two single-line commands', 3: 'a two-line command then a single-line one',
                   4: 'incomplete input: ValueError, then a normal command'},
             timeout=900, split=('shape', 'c1'),
+            thorough=dict(params=dict(o1=Text(2), o2=Text(2), o3=Text(2), c1=Int(0, 4), c2=Int(0, 4), c3=Int(0, 4)), timeout=3000),
             note='the awaited form run_command(..., async_=True) over a hand-driven event loop returns the same values '
                  '(same scripted REPL, output handed to the asyncio protocol piece by piece)')
 def Q2_commands_async(o1, o2, o3, c1, c2, c3, shape):
